@@ -13,7 +13,7 @@ def C(fn, file, anchor, requires=(), ensures=(), **kw):
 
 # ---- P8E0 -------------------------------------------------------------------------------------
 C("P8E0::mul", "src/p8e0/ops.rs", r"pub const fn mul\(self, other: Self\) -> Self",
-  ensures=[f"|r: &Self| {S}::mul_ok({_b('self')}, {_b('other')}, {_b('r')}, 8, 0)"])
+  ensures=[f"|r: &Self| {S}::mul_ok({_b('self')}, {_b('other')}, {_b('r')}, 8, 0)"], stubbed_in_b=True)
 
 # ---- integer dividers (crate root) ---------------------------------------------------------------
 for _f, _t in (("div", "i32"), ("lldiv", "i64")):
@@ -37,12 +37,19 @@ _SPECIAL = {
     "g_q8.rs": "src/quire8.rs",
     "g_q16.rs": "src/quire16.rs",
     "g_q32.rs": "src/quire32.rs",
+    "h_rand.rs": ("src/p16e1.rs", 'feature = "rand"'),
 }
 import glob as _glob, os as _os
 MODULES = []
+MODULE_CFG = {}
 for _p in sorted(_glob.glob(_os.path.join(_os.path.dirname(_os.path.abspath(__file__)), "harness", "*.rs"))):
     _f = _os.path.basename(_p)
-    MODULES.append((_SPECIAL.get(_f, "src/lib.rs"), _f))
+    _v = _SPECIAL.get(_f, "src/lib.rs")
+    if isinstance(_v, tuple):
+        MODULES.append((_v[0], _f))
+        MODULE_CFG[_f] = _v[1]
+    else:
+        MODULES.append((_v, _f))
 
 
 _KANI_NOTE = ("Trusted: Kani 0.68 MIR->goto translation, CBMC 6.11 bit-precise semantics and the CaDiCaL answer; the spec library /verif/spec "
